@@ -346,7 +346,17 @@ func Build(s Spec) *Message {
 			for _, c := range s.Cookies {
 				cs = append(cs, c.Name+"="+c.Value)
 			}
-			m.add(&buf, "Cookie", strings.Join(cs, "; "))
+			lines := s.CookieLines
+			if lines < 1 {
+				lines = 1
+			}
+			if lines > len(cs) {
+				lines = len(cs)
+			}
+			for i := 0; i < lines; i++ {
+				// line i gets the cookies i*n/lines .. (i+1)*n/lines: order kept
+				m.add(&buf, "Cookie", strings.Join(cs[i*len(cs)/lines:(i+1)*len(cs)/lines], "; "))
+			}
 		}
 	}
 	if s.Location != "" {
